@@ -826,6 +826,13 @@ impl Inner {
         let id = frame.stream_id();
         let promised_id = frame.promised_id();
 
+        // A promise is made on a stream the client opened, never on a pushed
+        // (server-initiated) one.
+        if id.is_server_initiated() {
+            proto_err!(conn: "recv_push_promise: PUSH_PROMISE on a server-initiated stream; stream={:?}", id);
+            return Err(Error::library_go_away(Reason::PROTOCOL_ERROR));
+        }
+
         // First, ensure that the initiating stream is still in a valid state.
         let parent_key = match self.store.find_mut(&id) {
             Some(stream) => {
